@@ -13,6 +13,21 @@ package dhcpd
 
 //@ sweep C14 os.WriteFile, os.Create, os.OpenFile, os.Truncate, github.com/google/renameio/v2/maybe.WriteFile, github.com/google/renameio/v2.WriteFile
 
+// Removals: the lease database is deleted only by the explicit reset request; the migration removes the file of the old
+// format after the new one has been written.  No rename in the package.
+//@ func (s *server) handleReset(w http.ResponseWriter, r *http.Request)
+//@   property C14
+//@   callsites-only
+//@   requires nolocks()
+//@   modifies *
+//@   callsite os.Remove(name) requires reset-removes-the-database: name == s.conf.dbFilePath
+//@ func migrateDB(conf *ServerConfig) (err error)
+//@   property C14
+//@   callsites-only
+//@   modifies *
+//@   callsite os.Remove(name) requires old-format-file-only: name == oldLeasesPath
+//@ sweep C14 os.Rename, os.Remove, os.RemoveAll
+
 // ---- C11: routes are registered through the authenticating helper with a non-empty method ----
 // (an empty method is reserved for the DNS-over-HTTPS resolver paths and skips authentication in home.httpRegister)
 //@ package-callsite functype:github.com/AdguardTeam/AdGuardHome/internal/aghhttp.RegisterFunc(method, url, handler) requires method != "" || url == "/dns-query" || url == "/dns-query/"
